@@ -30,7 +30,7 @@ def extra_domain(pkg, name, R, lib, carts, scal):
         elif pkg == "spatial":
             R.assume((c[0][0] != 0) | (c[0][1] != 0) | (c[0][2] != 0))
         else:
-            R.assume(spec.tau2(lib, c[0]) > 0)
+            R.assume(spec.tau2(lib, c[0]) != 0)
     if name in ("beta", "to_beta3"):
         R.assume(c[0][3] != 0)
     if name == "gamma":
